@@ -105,54 +105,53 @@ def check_visit_seq(ctx, cfg):
         det_ii = "destination = the builder's whole array (N slots): %s; per slot one next_element()?, Some(el) written into that slot: %s/%s; the loop asks for a slot before reading: %s" % (full_dest, slot_ok, bool(val_ok), a.dominates(dest_next[0].bb, f.bb) if dest_next else False)
     ctx.ob(rule, K_VIS + "#fill", ok_ii, det_ii, at=b["at"], cfg=cfg)
     raw_write_discipline(ctx, cfg, b, "C17.W")
-    # (iii) Ok only under position == N and (hint says nothing left, or the extra probe returned None)
-    ok_iii = len(oks) == 1
-    det_iii = "expected one Ok(..) construction, found %d" % len(oks)
-    if ok_iii:
-        g = oks[0]
-        fin = [c for c in a.calls if c.key == "IntrusiveArrayBuilder<$0,$1>::finish"]
-        bld = fin[0].args[0] if fin else None
+    # (iii) judged per path on the tree-shaped code after the fill loop (helpers expanded): every Ok(array) is built with the builder full
+    # (position == N), after finish(), and with evidence on that path that no surplus element is left: the remaining-size hint compared equal
+    # to the probe constant / is Some(0), or an extra next_element::<Dummy>() returned None
+    at = ctx.analysis_inl(cfg, K_VIS, split=True)
+    oks_t, _ = c07.results(at)
+    ai = [c for c in at.calls if c.key in ("IntrusiveArrayBuilder<$0,$1>::array_assume_init", "GenericArray<$0,$1>::assume_init")]
+    oks_t = [g for g in oks_t if any(g["ops"] and g["ops"][0] == c.ret for c in ai)]
+    hints_t = [c for c in at.calls if c.fn == "serde::de::SeqAccess::size_hint"]
+    nexts_t = [c for c in at.calls if c.fn == "serde::de::SeqAccess::next_element"]
+    probes = [c for c in nexts_t if not at.reaches(c.bb, c.bb)]
+    fins = [c for c in at.calls if c.key == "IntrusiveArrayBuilder<$0,$1>::finish"]
+    adtp = [p for p in owners if p.split("::")[-1] == "IntrusiveArrayBuilder"]
+    bad = []
+    for g in oks_t:
+        fs = g["facts"]
+        fin = [c for c in fins if at.dominates(c.bb, g["site"][0])]
         pos = None
-        if bld is not None and bld[0] == "A":
-            adt = [p for p in owners if p.split("::")[-1] == "IntrusiveArrayBuilder"][0]
-            pv = bld[2][owners[adt]["names"].index("position")]
+        if fin and fin[0].args[0][0] == "A" and adtp:
+            pv = fin[0].args[0][2][owners[adtp[0]]["names"].index("position")]
             pos = pv[1] if pv[0] == "I" else None
-        full = pos is not None and a.prove(g["facts"], "Eq", pos, N) and fin and a.prove(fin[0].facts, "Eq", pos, N)
-        # walk back from the finisher to the first merge block and inspect each incoming edge
-        blk = fin[0].bb if fin else g["site"][0]
-        probes = [c for c in nexts if c not in fill]
-        edges_ok = True
-        n_edges = 0
-        seen = set()
-        while True:
-            inc = [(p, fl) for (p, s), fl in a.edge_facts.items() if s == blk]
-            if len(inc) == 1 and len(inc[0][1]) == 1 and inc[0][0] not in seen:
-                seen.add(inc[0][0])
-                facts = inc[0][1][0]
-                if any(f[0] == "b" for f in facts if f not in g["facts"]):
-                    pass
-                blk = inc[0][0]
-                # stop when the block's own in-edges decide
-                if any(c.bb == blk and (c.fn == "core::cmp::PartialEq::ne" or c.fn.endswith("is_some")) for c in a.calls):
-                    pass
-                if blk == 0:
-                    break
-                continue
-            for p, fl in inc:
-                for facts in fl:
-                    n_edges += 1
-                    hint_eq = any(f[0] == "b" and f[2] is False and f[1][0] == "opaque" and any(c.fn in ("core::cmp::PartialEq::ne",) and c.ret == ("B", f[1]) and _is_hint_cmp(a, c, hints) for c in a.calls) for f in facts)
-                    hint_eq2 = any(f[0] == "b" and f[2] is True and f[1][0] == "opaque" and any(c.fn in ("core::cmp::PartialEq::eq",) and c.ret == ("B", f[1]) and _is_hint_cmp(a, c, hints) for c in a.calls) for f in facts)
-                    none = any(f[0] == "b" and f[2] is False and f[1][0] == "is_some" and any(_from_call(a, f[1], pr) for pr in probes) for f in facts)
-                    edges_ok = edges_ok and (hint_eq or hint_eq2 or none)
-            break
-        ok_iii = bool(full) and edges_ok and n_edges >= 1
-        det_iii = "Ok(..) and finish() under position == N: %s; every edge into the success path carries `remaining-size hint equals the probe constant` or `extra next_element::<Dummy>() returned None` (%d edges): %s" % (bool(full), n_edges, edges_ok)
-    ctx.ob(rule, K_VIS + "#ok", ok_iii, det_iii, at=b["at"], cfg=cfg)
-    # array_assume_init only after finish
-    ai = [c for c in a.calls if c.key == "IntrusiveArrayBuilder<$0,$1>::array_assume_init"]
+        full = pos is not None and at.prove(fs, "Eq", pos, N)
+        if not full and fin:
+            # position == N is not tested but follows: the fill loop runs over the builder's whole array, is left only when the
+            # destination is exhausted (any early exit returns an error) and advances the position once per step
+            from .c03 import full_traversal_loop
+            bl = [i for i in range(len(at.locals)) if local_adt(at, i) in owners]
+            full = any(full_traversal_loop(ctx, cfg, at, at.body, owners, Classifier(db), i, fin[0].bb) is not None for i in bl)
+        ev = []
+        for f in fs:
+            if f[0] == "b" and f[1][0] == "opaque" and any(c.fn in ("core::cmp::PartialEq::ne", "core::cmp::PartialEq::eq") and c.ret == ("B", f[1]) and f[2] is (c.fn.endswith("::eq")) and _is_hint_cmp(at, c, hints_t) for c in at.calls):
+                ev.append("hint == probe constant")
+            if f[0] == "b" and f[2] is False and f[1][0] == "is_some" and any(_from_call(at, f[1], pr) for pr in probes):
+                ev.append("extra next_element returned None")
+            if f[0] == "variant" and f[2] == 0 and any(_from_call(at, f[1], pr) for pr in probes):
+                ev.append("extra next_element returned None")
+        for h in hints_t:
+            if ("variant", h.ret, 1) in fs and at.prove(fs, "Eq", Poly.atom(("proj", ("proj", h.ret, (("v", 1), 0)))), Poly.const(0)):
+                ev.append("remaining-size hint is Some(0)")
+        if not (full and fin and ev):
+            bad.append("Ok(..) under %s: builder full (position == N): %s; after finish(): %s; no-surplus evidence: %s" % (fstr(fs), bool(full), bool(fin), ev or "none"))
+    ok_iii = bool(oks_t) and not bad
+    ctx.ob(rule, K_VIS + "#ok", ok_iii, ("; ".join(bad) if bad else ("no Ok(array) construction found" if not oks_t else
+           "%d Ok(array) exit(s), each with the builder full, after finish(), and with evidence that nothing is left (hint equals the probe constant / Some(0), or the extra probe returned None)" % len(oks_t))), at=b["at"], cfg=cfg)
+    # the storage is read out only after finish()
+    ok_ai = bool(ai) and all(any(at.dominates(f_.bb, c.bb) for f_ in fins) for c in ai)
+    ctx.ob(rule, K_VIS + "#assume_init", ok_ai, "array_assume_init is reached only after finish() on the success path: %s" % ok_ai, at=b["at"], cfg=cfg)
     fin = [c for c in a.calls if c.key == "IntrusiveArrayBuilder<$0,$1>::finish"]
-    ctx.ob(rule, K_VIS + "#assume_init", len(ai) == 1 and len(fin) == 1 and a.dominates(fin[0].bb, ai[0].bb), "array_assume_init is reached only after finish() on the success path", at=b["at"], cfg=cfg)
     from . import c04 as _c04
     # finish -> array_assume_init window (rule shared with C04.F)
     # (iv) builder live at every fallible / foreign call after it is built
